@@ -191,6 +191,7 @@ func (fr *Frame) applyContract(ins ssa.Instruction, fc *FuncContract, callee *ss
 		return []string{"(" + name + " " + strings.Join(as, " ") + ")"}
 	}
 	env := vc.newEnv(fc.PkgPath, st)
+	sigInfo, env.tpBind = instantiateSig(sigInfo, callee, c)
 	pre := st.clone()
 	env.old = pre
 	if len(actuals) != len(sigInfo.params) {
@@ -263,7 +264,7 @@ func (fr *Frame) applyContract(ins ssa.Instruction, fc *FuncContract, callee *ss
 		if len(ghostNames) > 0 && mentionsIdent(e.E, ghostNames) {
 			continue // postcondition over the callee's own ghost variables: meaningful only inside the callee
 		}
-		t, err := env.boolExpr(e.E)
+		t, err := env.assumeExpr(e.E)
 		if err != nil {
 			vc.failed = fmt.Errorf("%s: ensures of %s: %v", vc.name, fc.Key, err)
 			return nil
@@ -786,6 +787,12 @@ func (fr *Frame) runSites(ins ssa.Instruction, when string, pc string, st *State
 			}
 			for i, a := range c.Args {
 				env.vars[fmt.Sprintf("arg%d", i)] = tv{t: fr.v1(a), ty: a.Type()}
+				// argNu: the value that was boxed into an interface-typed argument, with its static type
+				if mi, ok := a.(*ssa.MakeInterface); ok {
+					if _, seen := fr.vals[mi.X]; seen || isConstOrGlobal(mi.X) {
+						env.vars[fmt.Sprintf("arg%du", i)] = tv{t: fr.v1(mi.X), ty: mi.X.Type()}
+					}
+				}
 			}
 			// name of the struct field whose address is the first argument (e.g. which mutex is being locked)
 			rf := ""
@@ -861,13 +868,26 @@ func (fr *Frame) runSites(ins ssa.Instruction, when string, pc string, st *State
 			case "assert":
 				t, err := env.boolExpr(a.E)
 				if err != nil {
-					vc.failed = fmt.Errorf("%s: site %q: %v", vc.name, sa.Src, err)
-					return pc
+					// the assertion cannot even be stated at this site (e.g. the call now has operands of another type):
+					// the site no longer has the shape the contract requires, which is a failure of this obligation
+					vc.addObl(&Obligation{Name: fmt.Sprintf("site%d.%d/%d:%s %s", sa.Ordinal, ai+1, occ, sa.When, sa.Pattern), Kind: "site", PC: and(pc, guard), Goal: "false",
+						Src: a.Src + "  [not expressible at this site: " + err.Error() + "]"})
+					continue
 				}
 				vc.addObl(&Obligation{Name: fmt.Sprintf("site%d.%d/%d:%s %s", sa.Ordinal, ai+1, occ, sa.When, sa.Pattern), Kind: "site", PC: and(pc, guard), Goal: t, Src: a.Src})
 				pc = fr.assume(pc, implies(guard, t))
+			case "havoc":
+				tg, err := env.modTargets(a.E)
+				if err != nil {
+					vc.failed = fmt.Errorf("%s: site %q: %v", vc.name, sa.Src, err)
+					return pc
+				}
+				for _, t := range tg {
+					fr.havocTarget(st, t)
+				}
+				vc.note("site havoc in %s: %s", vc.name, a.Src)
 			case "assume":
-				t, err := env.boolExpr(a.E)
+				t, err := env.assumeExpr(a.E)
 				if err != nil {
 					vc.failed = fmt.Errorf("%s: site %q: %v", vc.name, sa.Src, err)
 					return pc
@@ -1220,4 +1240,86 @@ func closureWrites(fn *ssa.Function, fv *ssa.FreeVar) bool {
 		}
 	}
 	return false
+}
+
+func isConstOrGlobal(v ssa.Value) bool {
+	switch v.(type) {
+	case *ssa.Const, *ssa.Global, *ssa.Function:
+		return true
+	}
+	return false
+}
+
+// instantiateSig: a contract written on a generic function (or on a method of a generic type) is applied at a call of an
+// instance with the type parameters bound to the instance's type arguments: the formals take the instance's types.
+func instantiateSig(si *sigInfo, callee *ssa.Function, c *ssa.CallCommon) (*sigInfo, map[string]types.Type) {
+	var sig *types.Signature
+	var recvT types.Type
+	bind := map[string]types.Type{}
+	bindNamed := func(t types.Type) {
+		if p, ok := t.(*types.Pointer); ok {
+			t = p.Elem()
+		}
+		if n, ok := t.(*types.Named); ok && n.TypeArgs().Len() > 0 && n.Origin().TypeParams().Len() == n.TypeArgs().Len() {
+			for i := 0; i < n.TypeArgs().Len(); i++ {
+				bind[n.Origin().TypeParams().At(i).Obj().Name()] = n.TypeArgs().At(i)
+			}
+		}
+	}
+	switch {
+	case callee != nil && len(callee.TypeArgs()) > 0:
+		sig = callee.Signature
+		if o := callee.Origin(); o != nil {
+			for i := 0; i < o.TypeParams().Len(); i++ {
+				if i < len(callee.TypeArgs()) {
+					bind[o.TypeParams().At(i).Obj().Name()] = callee.TypeArgs()[i]
+				}
+			}
+		}
+		if sig.Recv() != nil {
+			recvT = sig.Recv().Type()
+			bindNamed(recvT)
+		}
+	case callee != nil && callee.Signature.Recv() != nil:
+		// method of an instantiated generic type reached without explicit function type arguments
+		sig = callee.Signature
+		recvT = sig.Recv().Type()
+		bindNamed(recvT)
+	case c != nil && c.IsInvoke():
+		recvT = c.Value.Type()
+		bindNamed(recvT)
+		sig = c.Signature()
+	}
+	if len(bind) == 0 || sig == nil {
+		return si, nil
+	}
+	identity := true
+	for k, v := range bind {
+		if tp, ok := v.(*types.TypeParam); !ok || tp.Obj().Name() != k {
+			identity = false
+		}
+	}
+	if identity {
+		return si, bind
+	}
+	out := &sigInfo{}
+	*out = *si
+	out.params = append([]paramInfo{}, si.params...)
+	out.results = append([]paramInfo{}, si.results...)
+	off := 0
+	if recvT != nil && len(out.params) == sig.Params().Len()+1 {
+		out.params[0].ty = recvT
+		off = 1
+	}
+	if len(out.params) == sig.Params().Len()+off {
+		for i := 0; i < sig.Params().Len(); i++ {
+			out.params[i+off].ty = sig.Params().At(i).Type()
+		}
+	}
+	if len(out.results) == sig.Results().Len() {
+		for i := 0; i < sig.Results().Len(); i++ {
+			out.results[i].ty = sig.Results().At(i).Type()
+		}
+	}
+	return out, bind
 }
